@@ -30,6 +30,8 @@ Other documented choices:
   * A quoted symbol |x| is the same symbol as x, but a quoted symbol is ALWAYS looked up as a
     user symbol: |true| / |12| / |and| are never the constant, the numeral or the connective.
   * Only zero-arity declare-fun; define-fun may have parameters (expanded at use).
+  * declare-sort with arity n > 0: every instance (S s1 .. sn) is a distinct uninterpreted sort
+    with two abstract values.  Sorts and function symbols live in separate name spaces.
 
 Value representation (eval_term / parse_value): Bool -> bool, Int -> int,
 bit-vector -> ("bv", width, unsigned_int), user-sort value -> ("u", sort_name, index).
@@ -338,16 +340,27 @@ def _free(t, bound, acc):
 # ----------------------------------------------------------------------------- sorts
 def show_sort(s):
     if isinstance(s, tuple):
-        return '(_ BitVec %d)' % s[1] if s[0] == 'BV' else _show_atom(Sym(s[1]))
+        if s[0] == 'BV':
+            return '(_ BitVec %d)' % s[1]
+        # an instance of a sort symbol with arguments is kept as its printed form "(Pair Int Int)"
+        return s[1] if s[1].startswith('(') else _show_atom(Sym(s[1]))
     return s
 
 
 def parse_sort(x, user_sorts):
-    """Sort s-expression -> sort representation; user_sorts = names of declared sorts."""
+    """Sort s-expression -> sort representation; user_sorts = declared sort names (-> arity)."""
+    arity = user_sorts if isinstance(user_sorts, dict) else dict.fromkeys(user_sorts, 0)
     if isinstance(x, list):
         if len(x) == 3 and x[0] == '_' and x[1] == 'BitVec' and type(x[2]) is str \
                 and _NUMERAL.match(x[2]) and int(x[2]) >= 1:
             return ('BV', int(x[2]))
+        if x and _is_symbol(x[0]) and not isinstance(x[0], Str) and x[0] in arity and arity[x[0]] > 0:
+            # (S s1 ... sn): every instance is a distinct uninterpreted sort with two values
+            if len(x) - 1 != arity[x[0]]:
+                raise SmtError("ill-formed sort: %s expects %d argument(s)" % (x[0], arity[x[0]]))
+            args = [parse_sort(y, user_sorts) for y in x[1:]]
+            return ('U', '(%s %s)' % (_show_atom(Sym(str(x[0]))) if isinstance(x[0], Sym) else x[0],
+                                      ' '.join(show_sort(y) for y in args)))
         raise SmtError("ill-formed sort: %s" % show(x))
     if isinstance(x, Str) or not _is_symbol(x):
         raise SmtError("ill-formed sort: %s" % show(x))
@@ -355,7 +368,9 @@ def parse_sort(x, user_sorts):
         return str(x)
     if x == 'Real':
         raise SmtError("unsupported sort Real")
-    if x in user_sorts:
+    if x in arity:
+        if arity[x] != 0:
+            raise SmtError("ill-formed sort: %s expects %d argument(s)" % (x, arity[x]))
         return ('U', str(x))
     raise SmtError("unknown sort: %s" % x)
 
@@ -653,7 +668,7 @@ def show_value(v):
         return str(v) if v >= 0 else '(- %d)' % -v
     if v[0] == 'bv':
         return '#b' + format(v[2], '0%db' % v[1])
-    return '(as %s %s)' % (_show_atom(Sym('@%s_%d' % (v[1], v[2]))), _show_atom(Sym(v[1])))
+    return '(as %s %s)' % (_show_atom(Sym('@%s_%d' % (v[1], v[2]))), show_sort(('U', v[1])))
 
 
 def parse_value(x):
@@ -708,6 +723,7 @@ class Solver:
 
     def reset(self):
         self.levels = [Level()]
+        self.sort_arity = {}          # sort name -> arity (entries of popped sorts are never read)
         self.mode = "assert"          # "assert" | "sat" | "unsat"
         self.model = None             # name -> value, valid in sat mode
         self.logic = None
@@ -724,7 +740,8 @@ class Solver:
         return sc
 
     def user_sorts(self):
-        return set().union(*(lv.sorts for lv in self.levels))
+        """Declared sort names in scope -> arity (a dict: `name in user_sorts()` works as before)."""
+        return {n: self.sort_arity.get(n, 0) for lv in self.levels for n in lv.sorts}
 
     def _new_name(self, x):
         if isinstance(x, Str) or not _is_symbol(x):
@@ -809,8 +826,7 @@ class Solver:
             raise SmtError("malformed command: %s is not a symbol" % show(a[0]))
         if a[0] in ('Bool', 'Int', 'Real', 'BitVec') or a[0] in self.user_sorts():
             raise SmtError("sort already declared: %s" % a[0])
-        if len(a) == 2 and int(a[1]) != 0:
-            raise SmtError("unsupported: sort symbols with arguments")
+        self.sort_arity[str(a[0])] = int(a[1]) if len(a) == 2 else 0
         self.levels[-1].sorts.add(str(a[0]))
         self._changed()
 
